@@ -119,3 +119,98 @@ func TestKnownFindingF1(t *testing.T) {
 	path := lib.WriteReplay("TestKnownFindingF1", "C05-F1", map[string]any{"property": "C05", "what": what, "goroutines": dump})
 	t.Fatalf("violation of C05: %s\nreplay: %s", what, path)
 }
+
+// ---------- a blocking Publish is released when the subscription it waits for goes away ----------
+
+// "Publish returns only after every subscription active for the message has Acked it (or that subscription or the Pub/Sub
+// was closed)": the subscription that has not acked may not even have RECEIVED the message (its consumer is busy elsewhere
+// and does not read), and it goes away by a cancelled context or by Close. Nothing is drained before Publish has returned:
+// reading the channel would free a sender that is stuck on it.
+func TestBlockedPublishReleased(t *testing.T) {
+	rapid.Check(t, func(t *rapid.T) {
+		cfg := gochannel.Config{
+			OutputChannelBuffer:            int64(rapid.IntRange(0, 2).Draw(t, "buffer")),
+			Persistent:                     rapid.Bool().Draw(t, "persistent"),
+			BlockPublishUntilSubscriberAck: true,
+		}
+		nOthers := rapid.IntRange(0, 2).Draw(t, "ackingSubscriptions")
+		batch := rapid.IntRange(1, 3).Draw(t, "messagesInOnePublish")
+		victimReads := rapid.IntRange(0, 2).Draw(t, "victimReceivesBeforeItStopsReading") // unsettled receipts: 0 = never reads
+		byClose := rapid.Bool().Draw(t, "releasedByClose")
+		g := gochannel.NewGoChannel(cfg, watermill.NopLogger{})
+		vctx, vcancel := context.WithCancel(context.Background())
+		defer vcancel()
+		victim, err := g.Subscribe(vctx, "T")
+		if err != nil {
+			t.Fatalf("harness: %v", err)
+		}
+		for i := 0; i < nOthers; i++ {
+			ch, err := g.Subscribe(context.Background(), "T")
+			if err != nil {
+				t.Fatalf("harness: %v", err)
+			}
+			go func() {
+				for m := range ch {
+					m.Ack()
+				}
+			}()
+		}
+		var msgs []*message.Message
+		for i := 0; i < batch; i++ {
+			msgs = append(msgs, message.NewMessage(fmt.Sprintf("m%d", i), nil))
+		}
+		pubRet := make(chan error, 1)
+		go func() { pubRet <- g.Publish("T", msgs...) }()
+		// the victim receives a message (and leaves it unsettled) at most once: it holds one unsettled message then
+		held := 0
+		if victimReads > 0 {
+			select {
+			case <-victim:
+				held = 1
+			case <-time.After(lib.Live):
+				t.Fatalf("harness: the victim subscription received nothing")
+			}
+		}
+		time.Sleep(time.Duration(rapid.IntRange(0, 2).Draw(t, "delayMs")) * time.Millisecond)
+		select {
+		case err := <-pubRet:
+			t.Fatalf("violation: blocking Publish returned (%v) although a subscription has neither acked nor been closed (it holds %d unsettled messages)", err, held)
+		default:
+		}
+		closeRet := make(chan struct{})
+		if byClose {
+			go func() { g.Close(); close(closeRet) }()
+		} else {
+			vcancel()
+			close(closeRet)
+		}
+		select {
+		case <-pubRet:
+		case <-time.After(lib.Live):
+			t.Fatalf("violation: blocking Publish did not return within %v after the only subscription that had not acked was %s (that subscription had received %d of the %d messages, nobody was reading its channel)",
+				lib.Live, map[bool]string{true: "closed with the Pub/Sub", false: "cancelled"}[byClose], held, batch)
+		}
+		// now drain and shut down
+		go func() {
+			for range victim {
+			}
+		}()
+		if !byClose {
+			done := make(chan struct{})
+			go func() { g.Close(); close(done) }()
+			select {
+			case <-done:
+			case <-time.After(lib.Live):
+				t.Fatalf("violation: Close did not return within %v", lib.Live)
+			}
+		} else {
+			select {
+			case <-closeRet:
+			case <-time.After(lib.Live):
+				t.Fatalf("violation: Close did not return within %v", lib.Live)
+			}
+		}
+		lib.Case(fmt.Sprintf("released|%+v|%d|%d|%d|%v", cfg, nOthers, batch, victimReads, byClose), true, "blocked-publish-released", fmt.Sprintf("by-close=%v", byClose), fmt.Sprintf("victim-received=%d", held))
+		lib.Sample(map[string]any{"test": "BlockedPublishReleased", "buffer": cfg.OutputChannelBuffer, "persistent": cfg.Persistent, "acking_subscriptions": nOthers, "batch": batch, "victim_received": held, "released_by_close": byClose})
+	})
+}
